@@ -548,6 +548,21 @@ def spec_verdict(i, s):
     return None
 
 
+def week_before_year1(case):
+    """WEEKLY + BYSETPOS whose first WKST-week begins before 0001-01-01: the positions of that week
+    would count days that datetime cannot represent -- outside the specification's domain (model vs
+    implementation only; the loop theorem carries the same hypothesis 1 <= ws0)."""
+    if case["freq"] != 2 or not case.get("bysetpos"):
+        return False
+    s = case["start"]
+    try:
+        o = datetime.date(s["y"], s["m"], s["d"]).toordinal()
+    except (ValueError, OverflowError):
+        return False
+    wd = (o + 6) % 7
+    return o - (wd - case["wkst"]) % 7 < 1
+
+
 def evaluate(case, oracle, model=None):
     a = encode(case)
     if model is None:
@@ -556,7 +571,7 @@ def evaluate(case, oracle, model=None):
         model = {"status": "F", "phase": -1, "exn": 0, "items": [], "timeout": True} if mr == "TIMEOUT" \
             else decode_result(mr)
     impl = run_impl(case)
-    wf = oracle.call(ENTRY_WF, a) == [1]
+    wf = oracle.call(ENTRY_WF, a) == [1] and not week_before_year1(case)
     spec = None
     sv = None
     if wf:
